@@ -98,6 +98,15 @@ func collision(img []byte, got []byte) bool {
 	return err == nil && bytes.Equal(f.Content, got)
 }
 
+// c04PostErr is the schedule of reads a caller issues after the first error.
+var c04PostErr = func() []int {
+	out := make([]int, 24)
+	for i := range out {
+		out[i] = 1 << 16
+	}
+	return out
+}()
+
 func runDFCase(c *DFCase, x *sim.Ctx) *sim.Violation {
 	b := c.R.Stream.Build()
 	if b.Err != nil {
@@ -120,19 +129,30 @@ func runDFCase(c *DFCase, x *sim.Ctx) *sim.Violation {
 	x.Shape(c.Mode)
 	site, bounds := streamSites(b)
 	n := len(b.Stream)
-	cost := decodeCost(b)
+	cost := decodeCost(b, c.R.Reads)
 
 	try := func(img []byte, what, st string, mustFail bool, idx int) *sim.Violation {
 		x.Eval(1)
 		x.Nontrivial(1)
 		sub := sim.NewCtx(false)
-		res := runReader("xz", img, len(b.Content), &c.R, len(b.Content)+1<<16, sub)
+		rc := c.R
+		rc.PostErr = c04PostErr // a caller that keeps reading after an error
+		res := runReader("xz", img, len(b.Content), &rc, len(b.Content)+1<<16, sub)
 		x.Step("api", sub.Counters["steps.api"])
 		x.Step("source", sub.Counters["steps.source"])
 		x.Ev("%s -> open=%v final=%v out=%d", what, res.OpenErr, res.Final, len(res.Out))
 		var v *sim.Violation
 		if res.OpenPanic != nil || res.Panic != nil || res.BadN != nil {
 			v = judgeDamaged(res, b.Content, "xz", st, what, false)
+		} else if res.PostErrEOF {
+			// the error was reported, the caller read on, and the reader then
+			// announced a clean end of stream: "never ... after delivering
+			// content that differs from the original" holds for that end too
+			x.Count("clean-end-after-an-error", 1)
+			all := append(append([]byte(nil), res.Out...), res.PostErrOut...)
+			if !bytes.Equal(all, b.Content) && !collision(img, all) && (hasCheck || mustFail) {
+				v = sim.Viol("damage-accepted", "xz:"+st+":after-error", "%s: Read reported %q, later reads went on to a clean end of stream after %d bytes in total that differ from the original %d", what, res.Final.Error(), len(all), len(b.Content))
+			}
 		} else if res.OpenErr == nil && res.Final == io.EOF {
 			switch {
 			case mustFail:
